@@ -41,6 +41,7 @@ SigObsVerdict(S, ev, ent) ==
 FirstBad(seq) == IF \E i \in 1..Len(seq) : seq[i] # ""
                  THEN seq[CHOOSE i \in 1..Len(seq) : seq[i] # "" /\ \A j \in 1..(i-1) : seq[j] = ""] ELSE ""
 
+LinksLead(lk) == \A i \in 1..Len(lk) : lk[i].f = lk[i].t /\ lk[i].fw
 CrashObsVerdict(S, ev) ==
     IF ev.term # "ok" THEN "opening a crash image did not terminate normally: " \o ev.term
     ELSE IF ev.rc # 0 THEN
@@ -63,5 +64,9 @@ CrashObsVerdict(S, ev) ==
         ELSE IF ev.re.wcount # 0 \/ ev.re.modified THEN "opening the file again modified it"
         ELSE IF ~ev.re.same THEN "a second open shows different content than the first"
         ELSE IF ev.modified /\ ~ev.closed_ok THEN "after the repairing open the file is not a well-formed closed file"
+        \* ... whose links lead somewhere: every item_next and every head-table entry of the file as the open left it
+        \* leads forward to a chunk of the list it belongs to (ev.lk: the distinct <<list of the holder, list of the
+        \* target, forward>> triples; a link into a chunk of another list, or to no chunk, is a dangling link)
+        ELSE IF ~LinksLead(ev.lk) THEN "after the open a link of the file leads to a chunk of another list or to no chunk"
         ELSE ""
 ==========================================================================
